@@ -182,3 +182,12 @@ Example C07_fresh_creates_one :
   count_creates wit_hash no_slices wit_w0 [SDep false None; SDep false None; SRev 100; SDep false None] = 1%nat.
 Proof. exact wit_fresh_one_create. Qed.
 Print Assumptions C07_fresh_creates_one.
+
+(** A pass in which a request failed (Create, Update, Delete or status update answered with an error, a conflict, or lost) returns
+    the error - the work queue retries nothing else. The monitor C07Corr.m07_wake checks this on the real controller. *)
+From PKOCorr Require Import DeployCorr C07Corr.
+Theorem C07_failed_request_fails_pass :
+  forall hash fault slices stale w w' evs r,
+    dep_pass hash fault slices stale w = (w', evs, r) -> existsb ev_failed evs = true -> r = DpError.
+Proof. exact (fun hash fault slices => monitor_sound_wake hash fault slices true true). Qed.
+Print Assumptions C07_failed_request_fails_pass.
